@@ -503,11 +503,23 @@ class ApplyLinks(Processor):
         # take care to remove nodes if there are any scheduled for removal
         # we do this here becuase that's more efficent
         if self.nodes_to_remove:
+            # the residues that are connected in the residue graph stay
+            # connected, also where no bond joins their atoms (that is
+            # what is reported as a missing link later on)
+            res_edges = [((meta_molecule.nodes[node_a]['resid'], meta_molecule.nodes[node_a]['resname']),
+                          (meta_molecule.nodes[node_b]['resid'], meta_molecule.nodes[node_b]['resname']),
+                          attrs) for node_a, node_b, attrs in meta_molecule.edges(data=True)]
             molecule.remove_nodes_from(self.nodes_to_remove)
             # make sure the residue graph is updated; this takes care that
             # nodes are also removed from the fragment graphs in the
             # meta_molecule.nodes['graph'] attribute
             meta_molecule.relabel_and_redo_res_graph(mapping={})
+            residues = {(meta_molecule.nodes[node]['resid'], meta_molecule.nodes[node]['resname']): node
+                        for node in meta_molecule.nodes}
+            for res_a, res_b, attrs in res_edges:
+                if res_a in residues and res_b in residues and\
+                   not meta_molecule.has_edge(residues[res_a], residues[res_b]):
+                    meta_molecule.add_edge(residues[res_a], residues[res_b], **attrs)
         # now we add all interactions but not the ones that contain the removed
         # nodes
         for inter_type in self.applied_links:
